@@ -236,7 +236,8 @@ type Args struct {
 func (a *Args) String() string {
 	var v []string
 	if len(a.Processed) != 0 {
-		v = a.Processed
+		// Cap the slice so appending below never writes into a.Processed.
+		v = a.Processed[:len(a.Processed):len(a.Processed)]
 	} else {
 		v = make([]string, 0, len(a.Values))
 		for _, item := range a.Values {
